@@ -16,11 +16,13 @@ pub struct FragOpts {
     pub allow_empty_samples: bool,
     /// draw dts/pts from the integer-extreme pool
     pub hostile_values: bool,
+    /// hardly ever flush: fragments of hundreds of samples
+    pub long_fragments: bool,
 }
 
 impl Default for FragOpts {
     fn default() -> Self {
-        FragOpts { max_ops: 50, bad_dts_pct: 8, big: false, hostile_cfg: false, constant_interval_pct: 30, allow_empty_samples: true, hostile_values: false }
+        FragOpts { max_ops: 50, bad_dts_pct: 8, big: false, hostile_cfg: false, constant_interval_pct: 30, allow_empty_samples: true, hostile_values: false, long_fragments: false }
     }
 }
 
@@ -155,7 +157,10 @@ pub fn gen_frag_ops(r: &mut Rng, o: &FragOpts) -> Vec<FOp> {
     let reorder = r.chance(1, 3);
     let mut k = 0u64;
     while ops.len() < n {
-        let c = r.below(100);
+        let mut c = r.below(100);
+        if o.long_fragments && (55..75).contains(&c) && !r.chance(1, 400) {
+            c = 0; // a write instead of a flush
+        }
         if constant {
             // writes with the fixed step; flush only with >= 2 queued
             if c < 70 || queued < 2 {
